@@ -3009,7 +3009,12 @@ def groupby_reduce(
         ).reshape(result.shape[:-1] + grp_shape)
         groups = final_groups
 
-    if is_bool_array and (_is_minmax_reduction(func) or _is_first_last_reduction(func)):
+    if (
+        is_bool_array
+        and (_is_minmax_reduction(func) or _is_first_last_reduction(func))
+        and dtype is None
+        and (fill_value is None or isinstance(fill_value, (bool, np.bool_)))
+    ):
         result = result.astype(bool)
 
     # Output of count has an int dtype.
